@@ -109,6 +109,14 @@ def translate_source():
     except Exception as e:
         open(out7, 'w').write('/-! source-level translation of the renderers failed on this tree -/\n')
         status['Render'] = 'untranslatable: translator failed (' + type(e).__name__ + ')'
+    # and the decoding loop of a VALGET response
+    out9 = os.path.join(LEAN, 'UbxModel', 'Gen', 'SrcValget.lean')
+    try:
+        r = sh([PY, os.path.join(ROOT, 'tools', 'pysrc2lean_valget.py'), REPO, out9], timeout=120)
+        status['Valget'] = r.stdout.strip().splitlines()[-1]
+    except Exception as e:
+        open(out9, 'w').write('/-! source-level translation of UbxCfgValGet.unpack failed on this tree -/\n')
+        status['Valget'] = 'untranslatable: translator failed (' + type(e).__name__ + ')'
     # and the gpsd handshake
     out8 = os.path.join(LEAN, 'UbxModel', 'Gen', 'SrcGpsd.lean')
     try:
@@ -133,6 +141,7 @@ SRC_THEOREMS = {
                 'h_esfla_set', 'h_set_datetime', 'h_find_entry', 'h_enable_gnss', 'h_disable_gnss', 'h_gps_glonass', 'h_gps_galileo_beidou', 'h_lever_arm'],
     'Render': ['r_lever', 'r_gnssid', 'r_fusion', 'r_gpsfix', 'r_flags_enable', 'r_alg_flags', 'r_init1', 'r_init2', 'r_sens1', 'r_sens2', 'r_nav_flags',
                'r_mode', 'r_proto'],
+    'Valget': ['unpack_consumed', 'valget_body_ok', 'valget_body_err', 'valget_loop', 'hdr_decode', 'valget_prelude', 'valget_unpack'],
     'Gpsd': ['g_parse_version', 'g_devices_loop', 'g_parse_devices', 'g_line', 'g_lines', 'g_parse_gpsd_msg', 'absG_init', 'g_ready'],
     'Server': ['srv_check_poll', 'srv_check_ack_nak', 'srv_check_mga', 'srv_send', 'srv_wait', 'srv_set', 'srv_set_mga',
                'srv_set_mga_other_class', 'srv_fire_and_forget', 'srv_set_retries', 'srv_set_retry_delay', 'srv_poll'],
@@ -148,6 +157,7 @@ TRANSFERS = {   # module -> (classes it needs, theorems)
     'TransferTty': (['Tty', 'UbxParser', 'NmeaParser'], ['src_scan_verdict', 'src_scan_time', 'src_tty_transmit', 'src_tty_recover']),
     'TransferHelpers': (['Helpers'], ['src_enable_gnss_spec', 'src_disable_gnss_spec', 'src_lever_arm_first']),
     'TransferRender': (['Render'], ['src_renderers_total']),
+    'TransferValget': (['Valget', 'CfgItem', 'CfgKeyData', 'Types'], ['src_valget_terminates', 'src_valget_dichotomy', 'src_valget_reencode']),
     'TransferGpsd': (['Gpsd'], ['src_chunk_never_raises', 'src_decision_table', 'src_ready_after', 'src_requested_kept']),
     'TransferServer': (['Server', 'UbxParser'], ['src_set_returns_bounded', 'src_set_mga_returns_bounded', 'src_poll_returns_bounded', 'src_set_result',
                                                  'src_poll_result', 'src_set_kth', 'src_set_like_fresh', 'src_poll_like_fresh', 'src_poll_all_same']),
